@@ -45,7 +45,8 @@ static uint32_t crc_upd(uint32_t c, const void *p, size_t n) {
 // ------------------------------------------------------------------------------------------- hash map
 static char flog[1 << 16];
 static size_t flen;
-static int hm_kind; // 0 u32, 1 u64, 2 str, 3 ptr
+static int hm_kind; // 0 u32, 1 u64, 2 str, 3 ptr, 4 skv (str keys, kv_free_fn = iwhmap_kv_free: no callback log)
+#define HM_STR (hm_kind == 2 || hm_kind == 4)
 static struct iwhmap *hm;
 
 static void flog_add(const char *s) {
@@ -63,7 +64,7 @@ static void put_flog(void) {
 }
 
 static void keyrepr(char *out, size_t n, const void *key) {
-  if (hm_kind == 2) {
+  if (HM_STR) {
     if (!key) { snprintf(out, n, "0"); return; }
     size_t l = strlen(key), w = 0;
     if (!l) { snprintf(out, n, "-"); return; }
@@ -100,35 +101,70 @@ static void hm_line(int n, char **tv) {
   if (!strcmp(op, "new")) {
     if (hm) { iwhmap_destroy(hm); hm = 0; }
     flen = 0; flog[0] = 0;
-    hm_kind = !strcmp(tv[2], "u32") ? 0 : !strcmp(tv[2], "u64") ? 1 : !strcmp(tv[2], "str") ? 2 : 3;
+    hm_kind = !strcmp(tv[2], "u32") ? 0 : !strcmp(tv[2], "u64") ? 1 : !strcmp(tv[2], "str") ? 2
+              : !strcmp(tv[2], "skv") ? 4 : 3;
     long lru = strtol(tv[3], 0, 10);
     hm = hm_kind == 0 ? iwhmap_create_u32(hm_free_cb) : hm_kind == 1 ? iwhmap_create_u64(hm_free_cb)
-         : hm_kind == 2 ? iwhmap_create_str(hm_free_cb) : iwhmap_create(0, hm_ptr_hash, hm_free_cb);
+         : hm_kind == 2 ? iwhmap_create_str(hm_free_cb) : hm_kind == 4 ? iwhmap_create_str(iwhmap_kv_free)
+         : iwhmap_create(0, hm_ptr_hash, hm_free_cb);
     if (lru >= 0) iwhmap_lru_init(hm, iwhmap_lru_eviction_max_count, (void*) (uintptr_t) lru);
     printf("ok\n");
+    return;
+  }
+  // header functions that need no live map
+  if (!strcmp(op, "create0")) {          // iwhmap_create without hash function
+    struct iwhmap *h0 = iwhmap_create(0, 0, hm_free_cb);
+    printf("null=%d\n", h0 == 0);
+    if (h0) iwhmap_destroy(h0);
+    return;
+  }
+  if (!strcmp(op, "null")) {             // iwhmap_clear(0) / iwhmap_destroy(0)
+    iwhmap_clear(0); iwhmap_destroy(0);
+    printf("ok\n");
+    return;
+  }
+  if (!strcmp(op, "kvfree")) {           // iwhmap_kv_free: both arguments released (ASan / LSan judge), zeros tolerated
+    iwhmap_kv_free(malloc(8), malloc(24)); iwhmap_kv_free(0, malloc(8)); iwhmap_kv_free(malloc(8), 0); iwhmap_kv_free(0, 0);
+    printf("ok\n");
+    return;
+  }
+  if (!strcmp(op, "iter0")) {            // iterator without map
+    struct iwhmap_iter it;
+    iwhmap_iter_init(0, &it);
+    bool r1 = iwhmap_iter_next(&it), r2 = iwhmap_iter_next(&it);
+    printf("r=%d%d ib=%u ie=%d\n", (int) r1, (int) r2, it.bucket, (int) it.entry);
     return;
   }
   if (!hm) { printf("nohm\n"); return; }
   uint8_t *ks = 0, *ks2 = 0;
   uint64_t k = 0, k2 = 0;
-  if (n > 2) { if (hm_kind == 2) unhexz(tv[2], &ks); else k = strtoull(tv[2], 0, 10); }
+  if (!strcmp(op, "lruinit")) {          // iwhmap_lru_init at any time
+    iwhmap_lru_init(hm, iwhmap_lru_eviction_max_count, (void*) (uintptr_t) strtoul(tv[2], 0, 10));
+    printf("ok\n");
+    return;
+  }
+  if (!strcmp(op, "evmax")) {
+    printf("r=%d\n", (int) iwhmap_lru_eviction_max_count(hm, (void*) (uintptr_t) strtoul(tv[2], 0, 10)));
+    return;
+  }
+  if (n > 2) { if (HM_STR) unhexz(tv[2], &ks); else k = strtoull(tv[2], 0, 10); }
   if (!strcmp(op, "put")) {
     void *v = mkval(tv[3]);
     iwrc rc = hm_kind == 0 ? iwhmap_put_u32(hm, (uint32_t) k, v) : hm_kind == 1 ? iwhmap_put_u64(hm, k, v)
-              : hm_kind == 2 ? iwhmap_put_str(hm, (char*) ks, v) : iwhmap_put(hm, (void*) (uintptr_t) k, v);
+              : HM_STR ? iwhmap_put_str(hm, (char*) ks, v) : iwhmap_put(hm, (void*) (uintptr_t) k, v);
     printf("rc=%s n=%u", rcs(rc), iwhmap_count(hm)); put_flog(); printf("\n");
   } else if (!strcmp(op, "get")) {
     void *v = hm_kind == 0 ? iwhmap_get_u32(hm, (uint32_t) k) : hm_kind == 1 ? iwhmap_get_u64(hm, k)
-              : hm_kind == 2 ? iwhmap_get(hm, ks) : iwhmap_get(hm, (void*) (uintptr_t) k);
+              : HM_STR ? iwhmap_get(hm, ks) : iwhmap_get(hm, (void*) (uintptr_t) k);
     if (v) printf("v=%" PRId64, *(int64_t*) v); else printf("v=nil");
     printf(" n=%u", iwhmap_count(hm)); put_flog(); printf("\n");
   } else if (!strcmp(op, "rm")) {
     bool r = hm_kind == 0 ? iwhmap_remove_u32(hm, (uint32_t) k) : hm_kind == 1 ? iwhmap_remove_u64(hm, k)
-             : hm_kind == 2 ? iwhmap_remove(hm, ks) : iwhmap_remove(hm, (void*) (uintptr_t) k);
+             : HM_STR ? iwhmap_remove(hm, ks) : iwhmap_remove(hm, (void*) (uintptr_t) k);
     printf("r=%d n=%u", (int) r, iwhmap_count(hm)); put_flog(); printf("\n");
   } else if (!strcmp(op, "ren")) {
     iwrc rc;
-    if (hm_kind == 2) {
+    if (HM_STR) {
       unhexz(tv[3], &ks2);
       // the new key is owned by the map only when the old key exists (the return code does not tell)
       bool have = _entry_find(hm, ks, hm->hash_key_fn(ks)) != 0;
@@ -145,7 +181,9 @@ static void hm_line(int n, char **tv) {
     printf("n=%u", iwhmap_count(hm)); put_flog(); printf("\n");
   } else if (!strcmp(op, "count")) {
     printf("n=%u\n", iwhmap_count(hm));
-  } else if (!strcmp(op, "iter")) {
+  } else if (!strcmp(op, "iter") || !strcmp(op, "iterx")) {
+    // st = calls that returned true, ib/ie = iter->bucket / iter->entry after the call that returned false;
+    // iterx: one MORE iwhmap_iter_next after the end
     struct iwhmap_iter it;
     iwhmap_iter_init(hm, &it);
     printf("it=");
@@ -156,6 +194,12 @@ static void hm_line(int n, char **tv) {
       printf("%s%s:%" PRId64, c++ ? "," : "", kb, it.val ? *(const int64_t*) it.val : 0);
     }
     if (!c) printf("-");
+    printf(" st=%d ib=%u ie=%d", c, it.bucket, (int) it.entry);
+    if (op[4]) {
+      fflush(stdout);
+      bool again = iwhmap_iter_next(&it);
+      printf(" again=%d ib2=%u", (int) again, it.bucket);
+    }
     printf("\n");
   } else if (!strcmp(op, "lru")) {
     // forward walk; prev links and last are compared as pointers only (never dereferencing hm->lru_last)
@@ -208,7 +252,7 @@ static void ul_state(const struct iwulist *l) {
     if (l->num) puthex(iwulist_get(l, l->num - 1), l->usize); else printf("none");
     return;
   }
-  printf(" n=%zu st=%zu an=%zu d=", l->num, l->start, l->anum);
+  printf(" n=%zu st=%zu an=%zu d=", iwulist_length(l), l->start, l->anum);
   if (!l->num) printf("-");
   for (size_t i = 0; i < l->num; ++i) {
     void *p = iwulist_get(l, i);
@@ -230,10 +274,26 @@ static void* unit(const char *h, size_t usize) {
   return u;
 }
 
+// "ul newinit": the list struct belongs to the caller (iwulist_init / iwulist_destroy_keep instead of create / destroy)
+static struct iwulist ul_own;
+static void ul_drop(void) {
+  if (!ul) return;
+  if (ul == &ul_own) { iwulist_destroy_keep(ul); ul = 0; } else iwulist_destroy(&ul);
+}
+
 static void ul_line(int n, char **tv) {
   const char *op = tv[1];
+  if (!strcmp(op, "newinit")) {
+    ul_drop();
+    ul_brief = 0;
+    iwrc rc = iwulist_init(&ul_own, strtoul(tv[3], 0, 10), strtoul(tv[2], 0, 10));
+    if (rc) { printf("err\n"); return; }
+    ul = &ul_own;
+    printf("ok"); ul_state(ul); printf("\n");
+    return;
+  }
   if (!strcmp(op, "new")) {
-    if (ul) iwulist_destroy(&ul);
+    ul_drop();
     ul_brief = 0;
     ul = iwulist_create(strtoul(tv[3], 0, 10), strtoul(tv[2], 0, 10));
     printf("ok"); ul_state(ul); printf("\n");
@@ -281,7 +341,12 @@ static void ul_line(int n, char **tv) {
     printf("c"); ul_state(c); printf("\n");
     iwulist_destroy(&c);
   } else if (!strcmp(op, "copy")) {
+    // copy <il> [hex units already in the target, separated by dots]
     struct iwulist *c = iwulist_create(strtoul(tv[2], 0, 10), us);
+    if (n > 3) {
+      char *sp = 0;
+      for (char *t = strtok_r(tv[3], ".", &sp); t; t = strtok_r(0, ".", &sp)) { void *u = unit(t, us); iwulist_push(c, u); free(u); }
+    }
     iwrc rc = iwulist_copy(ul, c);
     printf("rc=%s", rcs(rc)); ul_state(c); printf("\n");
     iwulist_destroy(&c);
@@ -301,8 +366,10 @@ static void ul_line(int n, char **tv) {
     ul_brief = b;
     printf(" arr=%d\n", ul->num == 0 || iwulist_array(ul) == iwulist_get(ul, 0));
   } else if (!strcmp(op, "destroy")) {
-    iwulist_destroy(&ul);
-    printf("d\n");
+    // after destroy_keep the caller's struct is zeroed
+    int own = ul == &ul_own;
+    ul_drop();
+    printf("d%s\n", own && (ul_own.array || ul_own.num || ul_own.anum || ul_own.start || ul_own.usize) ? " dirty" : "");
   } else {
     printf("?\n");
   }
@@ -359,10 +426,25 @@ static int pl_cmp(const IWLISTITEM *a, const IWLISTITEM *b, void *op) {
   return r ? r : a->size < b->size ? -1 : a->size > b->size ? 1 : 0;
 }
 
+static IWLIST pl_own;
+static void pl_drop(void) {
+  if (!pl) return;
+  if (pl == &pl_own) { iwlist_destroy_keep(pl); pl = 0; } else iwlist_destroy(&pl);
+}
+
 static void pl_line(int n, char **tv) {
   const char *op = tv[1];
+  if (!strcmp(op, "newinit")) {
+    pl_drop();
+    pl_brief = 0;
+    iwrc rc = iwlist_init(&pl_own, strtoul(tv[2], 0, 10));
+    if (rc) { printf("err\n"); return; }
+    pl = &pl_own;
+    printf("ok"); pl_state(pl); printf("\n");
+    return;
+  }
   if (!strcmp(op, "new")) {
-    if (pl) iwlist_destroy(&pl);
+    pl_drop();
     pl_brief = 0;
     pl = iwlist_create(strtoul(tv[2], 0, 10));
     printf("ok"); pl_state(pl); printf("\n");
@@ -377,8 +459,12 @@ static void pl_line(int n, char **tv) {
     printf("rc=%s", rcs(rc)); pl_state(pl); printf("\n");
   } else if (!strcmp(op, "pop") || !strcmp(op, "shift") || !strcmp(op, "rm")) {
     iwrc rc; size_t sz = 0;
-    char *v = op[0] == 'p' ? iwlist_pop(pl, &sz, &rc) : op[0] == 's' ? iwlist_shift(pl, &sz, &rc)
-              : iwlist_remove(pl, strtoul(tv[2], 0, 10), &sz, &rc);
+    // a trailing "n": the optional osize argument is NULL (the size is then taken from the terminator the list keeps)
+    int nul = n > 2 && !strcmp(tv[n - 1], "n");
+    size_t *osz = nul ? 0 : &sz;
+    char *v = op[0] == 'p' ? iwlist_pop(pl, osz, &rc) : op[0] == 's' ? iwlist_shift(pl, osz, &rc)
+              : iwlist_remove(pl, strtoul(tv[2], 0, 10), osz, &rc);
+    if (nul && v) sz = strlen(v);
     printf("rc=%s v=", rcs(rc));
     // ownership: the element handed to the caller must not be referenced by the list any more (the caller frees it)
     int dup = 0;
@@ -395,10 +481,14 @@ static void pl_line(int n, char **tv) {
   } else if (!strcmp(op, "at")) {
     iwrc rc; size_t sz = 0, sz2 = 0;
     size_t idx = strtoul(tv[2], 0, 10);
-    char *p = iwlist_at(pl, idx, &sz, &rc), *p2 = iwlist_at2(pl, idx, &sz2);
+    int nul = n > 3 && !strcmp(tv[n - 1], "n");
+    char *p = iwlist_at(pl, idx, nul ? 0 : &sz, &rc), *p2 = iwlist_at2(pl, idx, nul ? 0 : &sz2);
+    size_t sz3 = 0;
+    char *p3 = iwlist_get(pl, idx, nul ? 0 : &sz3);
+    if (nul && p) sz = sz2 = sz3 = strlen(p);
     printf("rc=%s v=", rcs(rc));
     if (p) puthex(p, sz); else printf("nil");
-    printf(" same=%d\n", p == p2 && sz == sz2);
+    printf(" same=%d\n", p == p2 && sz == sz2 && p == p3 && sz == sz3 && iwlist_length(pl) == pl->num);
   } else if (!strcmp(op, "clone")) {
     IWLIST *c = iwlist_clone(pl);
     printf("c"); pl_state(c); printf("\n");
@@ -412,8 +502,9 @@ static void pl_line(int n, char **tv) {
     printf("rc=0"); pl_state(pl); printf("\n");
     pl_brief = b;
   } else if (!strcmp(op, "destroy")) {
-    iwlist_destroy(&pl);
-    printf("d\n");
+    int own = pl == &pl_own;
+    pl_drop();
+    printf("d%s\n", own && (pl_own.array || pl_own.num || pl_own.anum || pl_own.start) ? " dirty" : "");
   } else {
     printf("?\n");
   }
@@ -500,6 +591,18 @@ static void rb_line(int n, char **tv) {
   if (!strcmp(op, "new")) {
     if (rb) iwrb_destroy(&rb);
     rb = iwrb_create(strtoul(tv[2], 0, 10), strtoul(tv[3], 0, 10));
+    if (!rb) { printf("null\n"); return; }
+    rb_state();
+    return;
+  }
+  if (!strcmp(op, "wrap")) {
+    // wrap <usize> <buflen>: iwrb_wrap on an exact-size heap buffer (the ring lives inside it; iwrb_destroy frees it)
+    if (rb) iwrb_destroy(&rb);
+    size_t us = strtoul(tv[2], 0, 10), bl = strtoul(tv[3], 0, 10);
+    void *buf = malloc(bl ? bl : 1);
+    rb = iwrb_wrap(buf, bl, us);
+    if (!rb) { free(buf); printf("null\n"); return; }
+    printf("len=%zu inbuf=%d ", rb->len, (void*) rb == buf && rb->buf == (char*) buf + sizeof(IWRB));
     rb_state();
     return;
   }
@@ -533,12 +636,49 @@ static void xs_state(struct iwxstr *x) {
   printf(" z=%d", sz < iwxstr_asize(x) ? iwxstr_ptr(x)[sz] == 0 : -1);
 }
 
+// user data of the string: tokens, the destructor logs them
+static char xs_udlog[4096];
+static size_t xs_udl;
+static void xs_ud_free(void *d) {
+  int tok = d ? *(int*) d : 0;
+  if (xs_udl + 16 < sizeof(xs_udlog)) xs_udl += snprintf(xs_udlog + xs_udl, sizeof(xs_udlog) - xs_udl, "%s%d", xs_udl ? "," : "", tok);
+  free(d);
+}
+static void xs_put_udlog(void) {
+  printf(" ud=%s", xs_udl ? xs_udlog : "-");
+  xs_udl = 0; xs_udlog[0] = 0;
+}
+// tokens handed to iwxstr_user_data_set without a destructor (or detached) stay owned by the harness
+static void *xs_own[256];
+static int xs_nown;
+static void xs_own_flush(void) { for (int i = 0; i < xs_nown; ++i) free(xs_own[i]); xs_nown = 0; }
+
 static void xs_line(int n, char **tv) {
   const char *op = tv[1];
-  if (!strcmp(op, "new")) {
+  if (!strcmp(op, "new") || !strcmp(op, "empty")) {
     if (xs) iwxstr_destroy(xs);
-    xs = iwxstr_create(strtoul(tv[2], 0, 10));
+    xs_udl = 0; xs_udlog[0] = 0; xs_own_flush();
+    xs = op[0] == 'e' ? iwxstr_create_empty() : iwxstr_create(strtoul(tv[2], 0, 10));
     printf("ok"); xs_state(xs); printf("\n");
+    return;
+  }
+  if (!strcmp(op, "palloc") || !strcmp(op, "newprintf")) {
+    // palloc <hex s> <int>: iwxstr_printf_alloc("%s:%d") - a malloc'ed C string; newprintf: iwxstr_new_printf - a fresh string
+    uint8_t *b; unhexz(tv[2], &b);
+    int v = atoi(tv[3]);
+    if (op[0] == 'p') {
+      char *r = iwxstr_printf_alloc("%s:%d", (char*) b, v);
+      printf("v=");
+      if (r) { puthex(r, strlen(r)); printf(" us=%d", (int) (malloc_usable_size(r) >= strlen(r) + 1)); } else printf("nil");
+      printf("\n");
+      free(r);
+    } else {
+      struct iwxstr *c = iwxstr_new_printf("%s:%d", (char*) b, v);
+      printf("c"); if (c) xs_state(c); else printf(" nil");
+      printf("\n");
+      iwxstr_destroy(c);
+    }
+    free(b);
     return;
   }
   if (!xs) { printf("noxs\n"); return; }
@@ -587,9 +727,41 @@ static void xs_line(int n, char **tv) {
     struct iwxstr *c = iwxstr_wrap(buf, l, as);
     printf("c"); xs_state(c); printf("\n");
     iwxstr_destroy(c);
+  } else if (!strcmp(op, "setsize")) {
+    // setsize <n> <fill> <term>: iwxstr_set_size(n); when the string grows the caller writes what set_size exposes, through
+    // iwxstr_ptr: bytes old .. n-1 = fill and the byte at n = term (set_size itself writes no terminator)
+    size_t old = iwxstr_size(xs), k = strtoul(tv[2], 0, 10);
+    iwrc rc = iwxstr_set_size(xs, k);
+    if (!rc && k > old) { memset(iwxstr_ptr(xs) + old, atoi(tv[3]), k - old); iwxstr_ptr(xs)[k] = (char) atoi(tv[4]); }
+    printf("rc=%s", rcs(rc)); xs_state(xs); printf("\n");
+  } else if (!strcmp(op, "cat2null")) {
+    iwrc rc = iwxstr_cat2(xs, 0);
+    printf("rc=%s", rcs(rc)); xs_state(xs); printf("\n");
+  } else if (!strcmp(op, "ud")) {
+    // ud <tok> <fn>: iwxstr_user_data_set(token or NULL for 0, destructor or none)
+    int tok = atoi(tv[2]), fn = atoi(tv[3]);
+    int *d = 0;
+    if (tok) { d = malloc(sizeof(*d)); *d = tok; if (!fn && xs_nown < 256) xs_own[xs_nown++] = d; }
+    iwxstr_user_data_set(xs, d, fn ? xs_ud_free : 0);
+    printf("ok"); xs_put_udlog(); printf("\n");
+  } else if (!strcmp(op, "udget") || !strcmp(op, "uddetach")) {
+    int *d = op[2] == 'g' ? iwxstr_user_data_get(xs) : iwxstr_user_data_detach(xs);
+    printf("v=%d", d ? *d : 0); xs_put_udlog(); printf("\n");
+    if (op[2] == 'd' && d && xs_nown < 256) {
+      int have = 0;
+      for (int i = 0; i < xs_nown; ++i) if (xs_own[i] == d) have = 1;
+      if (!have) xs_own[xs_nown++] = d;
+    }
+  } else if (!strcmp(op, "keepptr")) {
+    // iwxstr_destroy_keep_ptr: the buffer survives, the struct and the user data do not
+    size_t sz = iwxstr_size(xs);
+    char *p = iwxstr_destroy_keep_ptr(xs); xs = 0;
+    printf("d v="); puthex(p, sz); printf(" z=%d", p[sz] == 0); xs_put_udlog(); printf("\n");
+    free(p); xs_own_flush();
   } else if (!strcmp(op, "destroy")) {
     iwxstr_destroy(xs); xs = 0;
-    printf("d\n");
+    printf("d"); xs_put_udlog(); printf("\n");
+    xs_own_flush();
   } else {
     printf("?\n");
   }
@@ -646,6 +818,19 @@ static void av_state(void) {
   if (!c) printf("-");
 }
 
+// postorder key sequence through iwavl_for_each_in_postorder (first_in_postorder / next_in_postorder with the saved parent)
+static void av_post(void) {
+  struct avn *e;
+  int c = 0;
+  size_t lim = av_count + 3;
+  printf(" po=");
+  iwavl_for_each_in_postorder(e, av_root, struct avn, n) {
+    if (!lim--) { printf("~"); break; }
+    printf("%s%d", c++ ? "," : "", e->key);
+  }
+  if (!c) printf("-");
+}
+
 static void av_line(int n, char **tv) {
   const char *op = tv[1];
   if (!strcmp(op, "new")) {
@@ -673,9 +858,33 @@ static void av_line(int n, char **tv) {
     printf(" ub=");
     if (ub) printf("%d", iwavl_entry(ub, struct avn, n)->key); else printf("nil");
     printf("\n");
+  } else if (!strcmp(op, "post")) {
+    // the macros iwavl_for_each_in_order / in_reverse_order / in_postorder
+    struct avn *e;
+    int c = 0;
+    size_t lim = av_count + 3;
+    printf("io=");
+    iwavl_for_each_in_order(e, av_root, struct avn, n) { if (!lim--) { printf("~"); break; } printf("%s%d", c++ ? "," : "", e->key); }
+    if (!c) printf("-");
+    c = 0; lim = av_count + 3;
+    printf(" ro=");
+    iwavl_for_each_in_reverse_order(e, av_root, struct avn, n) { if (!lim--) { printf("~"); break; } printf("%s%d", c++ ? "," : "", e->key); }
+    if (!c) printf("-");
+    av_post(); printf("\n");
+  } else if (!strcmp(op, "lookn")) {
+    // iwavl_lookup_node (comparison node against node) + the unlinked mark of a node that is in no tree
+    struct avn probe;
+    probe.key = k;
+    iwavl_node_set_unlinked(&probe.n);
+    int u1 = iwavl_node_is_unlinked(&probe.n);
+    struct iwavl_node *x = iwavl_lookup_node(av_root, &probe.n, av_cmp);
+    printf("r=%d unl=%d,%d par=", x != 0, u1, x ? (int) iwavl_node_is_unlinked(x) : 0);
+    if (x && iwavl_get_parent(x)) printf("%d", iwavl_entry(iwavl_get_parent(x), struct avn, n)->key); else printf("nil");
+    printf("\n");
   } else if (!strcmp(op, "destroy")) {
+    // the postorder walk frees every node: print the order first
+    printf("d"); av_post(); printf("\n");
     av_free();
-    printf("d\n");
   } else {
     printf("?\n");
   }
@@ -715,6 +924,15 @@ static void po_state(struct iwpool *pool) {
   printf(" us=%zu as=%zu units=%d", iwpool_used_size(pool), iwpool_allocated_size(pool), nu);
 }
 
+// iwpool_printf_va behind a variadic wrapper
+static char* po_printf_va(struct iwpool *pool, const char *fmt, ...) {
+  va_list ap;
+  va_start(ap, fmt);
+  char *r = iwpool_printf_va(pool, fmt, ap);
+  va_end(ap);
+  return r;
+}
+
 static void po_line(int n, char **tv) {
   const char *op = tv[1];
   if (!strcmp(op, "new") || !strcmp(op, "newempty")) {
@@ -744,9 +962,29 @@ static void po_line(int n, char **tv) {
     if (p) puthex(p, strlen(p)); else printf("nil");
     po_where(po, p, l + 1); po_state(po); printf("\n");
     free(b);
-  } else if (!strcmp(op, "printf")) {
+  } else if (!strcmp(op, "strdupx")) {
+    // strdupx <k> <hex>: k = 0 iwpool_strndup2, 1 iwpool_strdup, 2 iwpool_strdup2
+    uint8_t *b; size_t l = unhexz(tv[3], &b);
+    int k = atoi(tv[2]);
+    iwrc rc = 0;
+    char *p = k == 0 ? iwpool_strndup2(po, (char*) b, l) : k == 1 ? iwpool_strdup(po, (char*) b, &rc) : iwpool_strdup2(po, (char*) b);
+    printf("rc=%s v=", rcs(rc));
+    if (p) puthex(p, strlen(p)); else printf("nil");
+    po_where(po, p, strlen((char*) b) + 1); po_state(po); printf("\n");
+    free(b);
+  } else if (!strcmp(op, "psplit")) {
+    // psplit <hex s> <int> <hex split chars> <ignore_ws>: iwpool_printf_split with the format "%s:%d"
+    uint8_t *b, *sc; unhexz(tv[2], &b); unhexz(tv[4], &sc);
+    const char **r = iwpool_printf_split(po, (char*) sc, atoi(tv[5]) != 0, "%s:%d", (char*) b, atoi(tv[3]));
+    printf("v=");
+    int c = 0;
+    for (const char **x = r; x && *x && c < 1000; ++x) { printf("%s", c++ ? "." : ""); puthex(*x, strlen(*x)); }
+    if (!c) printf("none");
+    po_state(po); printf("\n");
+    free(b); free(sc);
+  } else if (!strcmp(op, "printf") || !strcmp(op, "printfva")) {
     uint8_t *b; unhexz(tv[2], &b);
-    char *p = iwpool_printf(po, "%s:%d", (char*) b, atoi(tv[3]));
+    char *p = op[6] ? po_printf_va(po, "%s:%d", (char*) b, atoi(tv[3])) : iwpool_printf(po, "%s:%d", (char*) b, atoi(tv[3]));
     printf("v=");
     if (p) puthex(p, strlen(p)); else printf("nil");
     po_state(po); printf("\n");
@@ -1068,11 +1306,12 @@ int main(void) {
     else printf("?\n");
   }
   if (hm) iwhmap_destroy(hm);
-  if (ul) iwulist_destroy(&ul);
-  if (pl) iwlist_destroy(&pl);
+  ul_drop();
+  pl_drop();
   free(sa);
   if (rb) iwrb_destroy(&rb);
   if (xs) iwxstr_destroy(xs);
+  xs_own_flush();
   av_free();
   if (po) iwpool_destroy(po);
   pf_cleanup();
